@@ -524,7 +524,7 @@ pub open spec fn nul_field(b: Seq<u8>, k: int) -> bool { first_index_of(b, 0u8, 
         }
 //@ end
 
-//@ hint SocksRequest::read_v5 before `let target = match atype {`
+//@ hint SocksRequest::read_v5 before `let target = match`
         let ghost a0 = q.skip(3);
         proof {
             assert(q.skip(1).skip(1).skip(1) =~= a0);
